@@ -252,59 +252,113 @@ func (s *sched) isDone(i int) bool { s.mu.Lock(); defer s.mu.Unlock(); return s.
 type yieldStore struct {
 	inner store.Store
 	sc    *sched
+	hmu   sync.Mutex
+	hook  func(method string) error // optional: may block and/or make the call fail (fault and gate injection)
+}
+
+func (y *yieldStore) setHook(h func(method string) error) {
+	y.hmu.Lock()
+	y.hook = h
+	y.hmu.Unlock()
+}
+
+// enter is called at the start of every store method.
+func (y *yieldStore) enter(method string) error {
+	y.sc.yield(method)
+	y.hmu.Lock()
+	h := y.hook
+	y.hmu.Unlock()
+	if h != nil {
+		return h(method)
+	}
+	return nil
 }
 
 func (y *yieldStore) CheckAndSaveNonce(id string, n int64) error {
-	y.sc.yield("CheckAndSaveNonce")
+	if err := y.enter("CheckAndSaveNonce"); err != nil {
+		return err
+	}
 	return y.inner.CheckAndSaveNonce(id, n)
 }
 func (y *yieldStore) GetNode(id store.NodeID) (*store.Node, error) {
-	y.sc.yield("GetNode")
+	if err := y.enter("GetNode"); err != nil {
+		return nil, err
+	}
 	return y.inner.GetNode(id)
 }
-func (y *yieldStore) SetNode(n store.Node) error { y.sc.yield("SetNode"); return y.inner.SetNode(n) }
+func (y *yieldStore) SetNode(n store.Node) error {
+	if err := y.enter("SetNode"); err != nil {
+		return err
+	}
+	return y.inner.SetNode(n)
+}
 func (y *yieldStore) ActiveHosts(kind string, limit int) ([]store.Node, error) {
-	y.sc.yield("ActiveHosts")
+	if err := y.enter("ActiveHosts"); err != nil {
+		return nil, err
+	}
 	return y.inner.ActiveHosts(kind, limit)
 }
 func (y *yieldStore) NodePeers(id store.NodeID) ([]store.Node, error) {
-	y.sc.yield("NodePeers")
+	if err := y.enter("NodePeers"); err != nil {
+		return nil, err
+	}
 	return y.inner.NodePeers(id)
 }
 func (y *yieldStore) UpdateNodePeers(id store.NodeID, peers []string, block uint64) ([]store.NodeID, error) {
-	y.sc.yield("UpdateNodePeers")
+	if err := y.enter("UpdateNodePeers"); err != nil {
+		return nil, err
+	}
 	return y.inner.UpdateNodePeers(id, peers, block)
 }
 func (y *yieldStore) GetNodeBalance(id store.NodeID) (store.Balance, error) {
-	y.sc.yield("GetNodeBalance")
+	if err := y.enter("GetNodeBalance"); err != nil {
+		return store.Balance{}, err
+	}
 	return y.inner.GetNodeBalance(id)
 }
 func (y *yieldStore) AddNodeBalance(id store.NodeID, c *big.Int) error {
-	y.sc.yield("AddNodeBalance")
+	if err := y.enter("AddNodeBalance"); err != nil {
+		return err
+	}
 	return y.inner.AddNodeBalance(id, c)
 }
 func (y *yieldStore) GetAccountBalance(a store.Account) (store.Balance, error) {
-	y.sc.yield("GetAccountBalance")
+	if err := y.enter("GetAccountBalance"); err != nil {
+		return store.Balance{}, err
+	}
 	return y.inner.GetAccountBalance(a)
 }
 func (y *yieldStore) AddAccountBalance(a store.Account, c *big.Int) error {
-	y.sc.yield("AddAccountBalance")
+	if err := y.enter("AddAccountBalance"); err != nil {
+		return err
+	}
 	return y.inner.AddAccountBalance(a, c)
 }
 func (y *yieldStore) AddAccountNode(a store.Account, id store.NodeID) error {
-	y.sc.yield("AddAccountNode")
+	if err := y.enter("AddAccountNode"); err != nil {
+		return err
+	}
 	return y.inner.AddAccountNode(a, id)
 }
 func (y *yieldStore) IsAccountNode(a store.Account, id store.NodeID) error {
-	y.sc.yield("IsAccountNode")
+	if err := y.enter("IsAccountNode"); err != nil {
+		return err
+	}
 	return y.inner.IsAccountNode(a, id)
 }
 func (y *yieldStore) GetAccountNodes(a store.Account) ([]store.NodeID, error) {
-	y.sc.yield("GetAccountNodes")
+	if err := y.enter("GetAccountNodes"); err != nil {
+		return nil, err
+	}
 	return y.inner.GetAccountNodes(a)
 }
-func (y *yieldStore) Stats() (*store.Stats, error) { y.sc.yield("Stats"); return y.inner.Stats() }
-func (y *yieldStore) Close() error                 { return y.inner.Close() }
+func (y *yieldStore) Stats() (*store.Stats, error) {
+	if err := y.enter("Stats"); err != nil {
+		return nil, err
+	}
+	return y.inner.Stats()
+}
+func (y *yieldStore) Close() error { return y.inner.Close() }
 
 // bubbleLeftovers returns the stacks of the goroutines of the calling
 // goroutine's synctest bubble (other than the caller) that are still alive.
